@@ -829,6 +829,29 @@ func ruleC01Source(c *Ctx, docField string) {
 				}
 			}
 		}
+		// a copy of the document store made by a helper (`contents := s.documentContents()`: a map filled by a
+		// walk over the store, or a text loaded from it)
+		for x := range sl {
+			call, ok := x.(*ssa.Call)
+			if !ok {
+				continue
+			}
+			cal := call.Call.StaticCallee()
+			if cal == nil || !inModule(cal) || cal.Blocks == nil {
+				continue
+			}
+			for _, ff := range append([]*ssa.Function{cal}, cal.AnonFuncs...) {
+				for _, b := range ff.Blocks {
+					for _, ins := range b.Instrs {
+						if c2, ok := ins.(*ssa.Call); ok {
+							if fld, ok := isSyncMapCall(c2, "Range"); ok && fld == docField {
+								return true, "document store (Range) through " + cal.Name()
+							}
+						}
+					}
+				}
+			}
+		}
 		// a value handed to the callback of a walk over the document store (wherever that walk lives)
 		for x := range sl {
 			if p, ok := x.(*ssa.Parameter); ok && p.Parent().Parent() != nil {
